@@ -2,7 +2,7 @@
 from oblib import ob
 
 BOUNDS = {
-    "quick": "one struct type with int8, string-tagged int8, bool, string, []int8, map[string]int8, *int8, [2]bool, nested struct, []byte (base64), any, *struct; six shapes (every int8 + strings / populated containers / empty containers and nested pointer with every uint8 / untyped values behind the interface / every int8 through the string tag / symbolic slice element); every int8/uint8/bool value and every well-formed UTF-8 string of 1-2 bytes is covered symbolically; options StringifyNumbers x Deterministic. Plus: every int64/uint64 as number, quoted number and map key (cvc5 int-blasting); [3]byte and []byte with symbolic contents under no option / FormatByteArrayAsArray alone / FormatBytesWithLegacySemantics alone / both; two-entry maps keyed by *string (1 symbolic byte each) and *int8 (all values). Durations: every int64 time.Duration through appendDurationBase10/parseDurationBase10 (nano, micro, milli, sec; both signs) and every non-negative one through the ISO 8601 pair; every instant with 0 <= seconds < 2^40 and any nanosecond through appendTimeUnix/parseTimeUnix in seconds (unit level: the kernels are called directly). Outside: floats, time layouts, negative/other-unit unix timestamps and negative ISO 8601 durations (solver timeouts: reported as such, not claimed), time layouts on the typed path, other type graphs. Typed path: every int64 duration as a struct member tagged format:sec, format:nano and string,format:milli through Marshal and Unmarshal with ExperimentalSupportFormatTag; every instant with 0 <= seconds < 2^40 as a member tagged format:unix.",
+    "quick": "one struct type with int8, string-tagged int8, bool, string, []int8, map[string]int8, *int8, [2]bool, nested struct, []byte (base64), any, *struct; six shapes (every int8 + strings / populated containers / empty containers and nested pointer with every uint8 / untyped values behind the interface / every int8 through the string tag / symbolic slice element); every int8/uint8/bool value and every well-formed UTF-8 string of 1-2 bytes is covered symbolically; options StringifyNumbers x Deterministic. Plus: every int64/uint64 as number, quoted number and map key (cvc5 int-blasting); [3]byte and []byte with symbolic contents under no option / FormatByteArrayAsArray alone / FormatBytesWithLegacySemantics alone / both; two-entry maps keyed by *string (1 symbolic byte each) and *int8 (all values). Durations: every int64 time.Duration through appendDurationBase10/parseDurationBase10 (nano, micro, milli, sec; both signs) and (thorough tier) every non-negative one through the ISO 8601 pair; every instant with 0 <= seconds < 2^40 and any nanosecond through appendTimeUnix/parseTimeUnix in seconds (unit level: the kernels are called directly). Outside: floats, time layouts, negative/other-unit unix timestamps and negative ISO 8601 durations (solver timeouts: reported as such, not claimed), time layouts on the typed path, other type graphs. Typed path: every int64 duration as a struct member tagged format:sec, format:nano and string,format:milli through Marshal and Unmarshal with ExperimentalSupportFormatTag; every instant with 0 <= seconds < 2^40 as a member tagged format:unix.",
     "thorough": "as quick with all StringifyNumbers x Deterministic combinations for every shape and all 8 wide-integer partitions, strings of 2 bytes in shape 0 under default options.",
 }
 ASSUMPTIONS = [
@@ -41,6 +41,7 @@ def obligations(tier):
         for neg in (False, True):
             L.append(ob("duration/typed/kind=%d/neg=%d" % (kind, neg), ".", "VerifC04DurTyped", [kind, neg], covers=["checked"], solver="cvc5-int", timeout_ms=120000, max_seconds=900))
     L.append(ob("time/typed/unix/bits=40", ".", "VerifC04TimeTyped", [40], covers=["checked"], solver="cvc5-int", timeout_ms=120000, max_seconds=900))
-    L.append(ob("duration/iso8601/neg=0", ".", "VerifC04DurISO8601", [False], covers=["checked"], solver="cvc5-int", timeout_ms=120000, max_seconds=1500))
+    if not q:
+        L.append(ob("duration/iso8601/neg=0", ".", "VerifC04DurISO8601", [False], covers=["checked"], solver="cvc5-int", timeout_ms=120000, max_seconds=1500))
     L.append(ob("time/unix/sec/neg=0", ".", "VerifC04TimeUnix", [1, 40, False], covers=["checked"], solver="cvc5-int", timeout_ms=120000, max_seconds=900))
     return L
